@@ -569,6 +569,27 @@ def compare(interp, st, op, l, r, node=None):
     if isinstance(l, dict) and isinstance(r, dict) and t in (ast.Eq, ast.NotEq):
         res = dict_eq(l, r)
         return res if t is ast.Eq else b_not(res)
+    if isinstance(l, Rec) and isinstance(r, Rec) and t in (ast.Eq, ast.NotEq) and l.cls in ("LatticeMaze", "TargetedLatticeMaze", "SolvedMaze") \
+            and r.cls in ("LatticeMaze", "TargetedLatticeMaze", "SolvedMaze"):
+        from . import spec as SP
+        from .npmodel4 import _trust
+
+        _trust("== of two mazes is LatticeMaze.__eq__, proved equal to the specification maze_equal under C09")
+        res = SP.sp_maze_equal(interp, st, [l, r], {}, node)
+        return res if t is ast.Eq else b_not(res)
+    if isinstance(l, SymList) and isinstance(r, SymList) and t in (ast.Eq, ast.NotEq) and isinstance(l.tmpl, Rec) and isinstance(r.tmpl, Rec) \
+            and l.tmpl.cls in ("LatticeMaze", "TargetedLatticeMaze", "SolvedMaze") and r.tmpl.cls in ("LatticeMaze", "TargetedLatticeMaze", "SolvedMaze"):
+        # list == list: equal lengths and pairwise == (python also accepts identical elements outright; maze equality is reflexive).  == of two mazes
+        # is LatticeMaze.__eq__, proved equal to the specification maze_equal under C09.
+        from . import spec as SP
+        from .npmodel4 import _trust
+
+        _trust("list.__eq__: equal lengths and pairwise == of the elements (== of mazes: LatticeMaze.__eq__ = maze_equal, C09)")
+        k = z3.Int(V.fresh_name("lk"))
+        n = to_z3(V.as_int(l.length))
+        eq = SP.sp_maze_equal(interp, st, [l.get(k), r.get(k)], {}, node)
+        res = z3.And(n == to_z3(V.as_int(r.length)), z3.ForAll([k], z3.Implies(z3.And(k >= 0, k < n), to_z3(eq))))
+        return res if t is ast.Eq else z3.Not(res)
     raise Outside(f"comparison of {type(l).__name__} and {type(r).__name__}", node)
 
 
